@@ -49,6 +49,10 @@ ASSUMPTIONS = [
 HERE = os.path.dirname(os.path.abspath(__file__))
 CHILD = os.path.join(os.path.dirname(HERE), "gen", "c20_child.py")
 
+MANDATORY_PROJECTS = 200    # x3 option sets; run regardless of the time budget
+MUST_PASS = ("multi-ok", "sandbox-bootstrap", "tool-two-contexts", "tool-several-users", "propagate-grandparent",
+             "propagate-merged", "second-parent", "reverse-order", "tool-only", "isolate-multi")
+
 KNOWN_CLASH = ("folded-job-names-collide", "numbered-job-name-collides", "folded-and-numbered-job-names-collide")
 
 
@@ -154,6 +158,25 @@ def directed():
                            '        packageScript: "echo m-a"\n    b:\n        packageScript: "echo m-b"\n')
     f["recipes/x.yaml"] = 'depends: [m-b]\nbuildScript: "true"\npackageScript: "echo x"\n'
     out.append(("reverse-order", f, {"roots": ["root"], "prefix": "", "isolate": None, "short": True, "sandbox": "no"}))
+    # one tool variant needed inside and outside of a sandbox: a (in sandbox sb) and b (no sandbox) use tool -> base.
+    # For Jenkins root/a/tool and root/b/tool are different packages (workspaces, jobs) with the same plain Variant-Id
+    f = _cfg()
+    f["recipes/root.yaml"] = 'root: True\ndepends: [a, b]\nbuildScript: "true"\npackageScript: "echo root"\n'
+    f["recipes/sb.yaml"] = 'buildScript: "true"\npackageScript: "echo sb"\nprovideSandbox:\n    paths: ["/bin"]\n'
+    f["recipes/tool.yaml"] = 'depends: [base]\nbuildScript: "true"\npackageScript: "echo tool"\nprovideTools:\n    T: "."\n'
+    f["recipes/base.yaml"] = 'buildScript: "true"\npackageScript: "echo base"\n'
+    f["recipes/a.yaml"] = ('depends:\n    - name: sb\n      use: [sandbox]\n      forward: True\n    - name: tool\n      use: [tools]\n'
+                           'buildTools: [T]\nbuildScript: "true"\npackageScript: "echo a"\n')
+    f["recipes/b.yaml"] = 'depends:\n    - name: tool\n      use: [tools]\nbuildTools: [T]\nbuildScript: "true"\npackageScript: "echo b"\n'
+    out.append(("tool-two-contexts", f, {"roots": ["root"], "prefix": "", "isolate": None, "short": False, "sandbox": "yes"}))
+    # several users, other order (outside first), the sandbox provider also as plain dependency outside
+    f = dict(f)
+    f["recipes/b.yaml"] = ('depends:\n    - sb\n    - name: tool\n      use: [tools]\nbuildTools: [T]\nbuildScript: "true"\n'
+                           'packageScript: "echo b"\n')
+    f["recipes/c.yaml"] = ('depends:\n    - name: sb\n      use: [sandbox]\n      forward: True\n    - name: tool\n      use: [tools]\n'
+                           'packageTools: [T]\nbuildScript: "true"\npackageScript: "echo c"\n')
+    f["recipes/root.yaml"] = 'root: True\ndepends: [b, a, c]\nbuildScript: "true"\npackageScript: "echo root"\n'
+    out.append(("tool-several-users", f, {"roots": ["root"], "prefix": "j-", "isolate": None, "short": True, "sandbox": "yes"}))
     # a tool: its provider must get a job although it is no argument of any step
     f = _cfg()
     f["recipes/root.yaml"] = ('root: True\ndepends:\n    - name: tp\n      use: [tools]\nbuildTools: [T]\n'
@@ -243,11 +266,18 @@ def _gen_batch(ctx, tag, nproj, per_proj, ir_share):
     cases, meta = [], {}
     for i in range(nproj):
         r = ctx.subrng(tag, i)
-        proj = G.gen_project(r, odd_names=0.12 if r.random() < 0.7 else 0.0)
+        toolbox = r.random() < 0.25
+        if toolbox:
+            # tool / sandbox providers needed in several sandbox contexts
+            proj = G.gen_toolbox_project(r)
+        else:
+            proj = G.gen_project(r, odd_names=0.12 if r.random() < 0.7 else 0.0)
         d = os.path.join(ctx.tmp, tag, "p%d" % i)
         _write_project(d, proj["files"])
         for k in range(per_proj):
             opts = G.gen_case_options(r, proj)
+            if toolbox and r.random() < 0.85:
+                opts["sandbox"] = r.choice(["yes", "yes", "slim"])
             cid = "%s-%d-%d" % (tag, i, k)
             cases.append({"id": cid, "dir": d, "opts": opts, "ir": r.random() < ir_share})
             meta[cid] = {"files": proj["files"], "opts": opts, "sub": [tag, i, k]}
@@ -327,24 +357,29 @@ def oracle(ctx):
         cid = "directed-" + name
         cases.append({"id": cid, "dir": d, "opts": opts, "ir": True})
         meta[cid] = {"files": files, "opts": opts, "sub": ["directed", name]}
-    res = _run_children(ctx, cases, 7, max(20.0, min(75.0, ctx.time_left() - 50.0)))
+    # mandatory: runs whatever the load of the machine is (the generous cap only guards against a hang)
+    res = _run_children(ctx, cases, 7, 900.0)
     take(cases, meta, res)
-    # the directed shapes without a name clash must give an acyclic job graph
-    for name in ("multi-ok", "sandbox-bootstrap", "propagate-grandparent", "propagate-merged", "second-parent", "reverse-order", "tool-only", "isolate-multi"):
+    # the directed shapes without a name clash must give an acyclic job graph (all other clauses: the oracle in the child)
+    for name in MUST_PASS:
         ok = res.get("directed-" + name)
         if ok is not None and (ok["status"] != "ok" or ok.get("order") != "ok"):
             ctx.violation("the project '%s' (acyclic recipes, no name clash) does not give an acyclic job graph: %s"
                           % (name, ok.get("order") or ok.get("error") or ok.get("gen_error")),
                           dict(_record(meta["directed-" + name]), signature="directed-shape-fails"), "directed-shape-fails")
-    # ---- generated stream, as much as fits (room is left for the correspondence)
+    # ---- generated stream.  The first part is mandatory as well (sized so that directed + mandatory + their
+    # correspondence take well below a minute on an idle 16 core machine); the rest fills the budget.
+    c2, m2 = _gen_batch(ctx, "gen", MANDATORY_PROJECTS, 3, 0.35)
+    res = _run_children(ctx, c2, _workers(), 1200.0)
+    take(c2, m2, res)
     if ctx.time_left() > 40:
         nproj = min(ctx.scale(260, 5000), max(10, int(ctx.time_left() * 3)))   # do not prepare what cannot run
-        c2, m2 = _gen_batch(ctx, "gen", nproj, 3, 0.35)
-        limit = max(5.0, min((ctx.time_left() - 30.0) * 0.6, ctx.scale(55.0, 900.0)))
-        res = _run_children(ctx, c2, _workers(), limit)
-        take(c2, m2, res)
+        c3, m3 = _gen_batch(ctx, "gen2", nproj, 3, 0.35)
+        limit = max(5.0, min((ctx.time_left() - 30.0) * 0.6, ctx.scale(45.0, 900.0)))
+        res = _run_children(ctx, c3, _workers(), limit)
+        take(c3, m3, res)
     else:
-        ctx.skip("c20: no time left for the generated stream of the oracle")
+        ctx.count("case_status", "optional-stream-not-started(time)")
     cache["budget_used"] = time.time() - t0
 
 
